@@ -43,6 +43,8 @@ pub enum Step {
     MkdirExists,
     /// socket(AF_UNIX, SOCK_STREAM): a new descriptor
     Socket,
+    /// sendto (no address) of 4 bytes: goes through the zero-copy send, which posts TWO completions
+    Sendto(usize),
 }
 
 #[derive(Clone, Copy, Debug, PartialEq, Eq, Hash)]
@@ -63,6 +65,7 @@ impl Step {
             Step::ShutdownBad => "shutdown(unopened descriptor)".into(),
             Step::MkdirExists => "mkdirat(/tmp)".into(),
             Step::Socket => "socket()".into(),
+            Step::Sendto(s) => format!("sendto({})", SL[s]),
         }
     }
     fn from_s(s: &str) -> Option<Step> {
@@ -81,6 +84,9 @@ impl Step {
         }
         if let Some(r) = s.strip_prefix("write(") {
             return Some(Step::Write(slot(r.trim_end_matches(')'))?));
+        }
+        if let Some(r) = s.strip_prefix("sendto(") {
+            return Some(Step::Sendto(slot(r.trim_end_matches(')'))?));
         }
         None
     }
@@ -226,6 +232,10 @@ pub fn run_case(c: &Case) -> (Vec<Viol>, BTreeMap<String, u64>) {
                             buf[..4].copy_from_slice(&out_bytes(j, i));
                             sc::send(None, fds[3], buf.as_ptr().cast(), 4, libc::MSG_NOSIGNAL)
                         }
+                        Step::Sendto(s) => {
+                            buf[..4].copy_from_slice(&out_bytes(j, i));
+                            sc::sendto(None, fds[s], buf.as_ptr().cast(), 4, libc::MSG_NOSIGNAL, std::ptr::null(), 0)
+                        }
                         Step::FsyncSock => sc::fsync(None, fds[0]) as isize,
                         Step::ShutdownBad => sc::shutdown(None, bad_fd, libc::SHUT_RDWR) as isize,
                         Step::MkdirExists => sc::mkdirat(None, libc::AT_FDCWD, c"/tmp".as_ptr(), 0o755) as isize,
@@ -292,7 +302,7 @@ pub fn run_case(c: &Case) -> (Vec<Viol>, BTreeMap<String, u64>) {
             if !expect_return(fed, idles) && quiet >= 3 {
                 return true;
             }
-            if t.elapsed() > Duration::from_millis(1500) {
+            if t.elapsed() > Duration::from_millis(10_000) {
                 return false;
             }
             std::thread::sleep(Duration::from_micros(50));
@@ -405,11 +415,19 @@ pub fn run_case(c: &Case) -> (Vec<Viol>, BTreeMap<String, u64>) {
                     bad("own-result", format!("data:{ctx}"), format!("returned {} (errno {}) with {avail} byte(s) of its own descriptor available", call.ret, call.errno));
                 }
             }
-            Step::Write(s) => {
-                if call.ret != 4 {
-                    bad("own-result", format!("write:{ctx}"), format!("returned {} (errno {}), its own completion is 4", call.ret, call.errno));
+            Step::Write(s) | Step::Sendto(s) => {
+                // the zero-copy send behind sendto is refused for AF_UNIX sockets (-EOPNOTSUPP): that is
+                // the call's own completion, reported faithfully; what matters here is that neither of
+                // its two completions reaches anybody else
+                let refused = matches!(call.step, Step::Sendto(_)) && call.ret == -1 && call.errno == libc::EOPNOTSUPP;
+                if refused {
+                    w("zero_copy_sends_refused_by_the_kernel", 1);
+                } else {
+                    if call.ret != 4 {
+                        bad("own-result", format!("{}:{ctx}", if matches!(call.step, Step::Write(_)) { "write" } else { "sendto" }), format!("returned {} (errno {}), its own completion is 4", call.ret, call.errno));
+                    }
+                    written[s].extend_from_slice(&call.buf[..4]);
                 }
-                written[s].extend_from_slice(&call.buf[..4]);
             }
             Step::ReadBad => {
                 if call.ret != -1 || call.errno != libc::EBADF {
@@ -519,7 +537,7 @@ pub fn bounds(tier: &str) -> (usize, usize, usize) {
 
 pub fn cases(tier: &str) -> Vec<Case> {
     let (l0, l1, e) = bounds(tier);
-    let steps = [Step::Read(0), Step::Read(1), Step::Read(2), Step::Read(3), Step::Write(0), Step::Write(1), Step::ReadBad, Step::SendClosed, Step::FsyncSock, Step::ShutdownBad, Step::MkdirExists, Step::Socket];
+    let steps = [Step::Read(0), Step::Read(1), Step::Read(2), Step::Read(3), Step::Write(0), Step::Write(1), Step::ReadBad, Step::SendClosed, Step::FsyncSock, Step::ShutdownBad, Step::MkdirExists, Step::Socket, Step::Sendto(0)];
     // the second coroutine: something to be in flight next to the first one's calls
     let steps1 = [Step::Read(1), Step::Write(1), Step::ReadBad, Step::FsyncSock, Step::Read(2)];
     let p0 = seqs(&steps, 1, l0);
@@ -561,10 +579,10 @@ pub fn run(tier: &str, rep: &mut Report) {
     let cs = cases(tier);
     let (l0, l1, e) = bounds(tier);
     rep.bounds = json!({"descriptors": {"A,B": "stream sockets", "T": "stream socket with SO_RCVTIMEO = 1 s", "P": "stream socket whose peer is closed"},
-        "program_steps": ["read(A|B|T|P) of 4 bytes", "write(A|B) of 4 bytes", "read(unopened descriptor) -> -EBADF", "send(P, MSG_NOSIGNAL) -> -EPIPE", "fsync(A) -> -EINVAL", "shutdown(unopened descriptor) -> -EBADF", "mkdirat(/tmp) -> -EEXIST", "socket() -> a descriptor"],
+        "program_steps": ["read(A|B|T|P) of 4 bytes", "write(A|B) of 4 bytes", "read(unopened descriptor) -> -EBADF", "send(P, MSG_NOSIGNAL) -> -EPIPE", "fsync(A) -> -EINVAL", "shutdown(unopened descriptor) -> -EBADF", "mkdirat(/tmp) -> -EEXIST", "socket() -> a descriptor", "sendto(A) of 4 bytes (zero-copy send: two completions)"],
         "second_coroutine_steps": ["read(B)", "write(B)", "read(unopened descriptor)", "fsync(A)", "read(T)"],
         "steps_of_coroutine_0": l0, "steps_of_coroutine_1": l1, "driver_events": ["feed(slot): 4 more bytes", "let-2s-pass"], "driver_sequence_length": format!("0..={e} (one coroutine), 0..={} (two)", e.saturating_sub(1)), "cases": cs.len(),
-        "note": "completions arrive from the kernel's SQ-poll thread: after every driver event the loop is turned until every call whose completion is due has returned (cap 1.5 s of real time per event)"});
+        "note": "completions arrive from the kernel's SQ-poll thread: after every driver event the loop is turned until every call whose completion is due has returned (cap 10 s of real time per event)"});
     rep.require(&["reads_that_got_their_own_bytes", "error_completions_checked", "cases_with_two_coroutines"]);
     for c in cs.iter().step_by((cs.len() / 4).max(1)).take(4) {
         rep.sample(c.to_json());
@@ -572,7 +590,7 @@ pub fn run(tier: &str, rep: &mut Report) {
     // one case per child (the ring and its kernel poll thread go away with the child) and fewer
     // children than cores, the kernel's SQ-poll threads need some too
     let dflt = RunCfg::default();
-    let cfg = RunCfg { hang_after: Duration::from_millis(10_000), parallel: (dflt.parallel / 2).max(1), ..dflt };
+    let cfg = RunCfg { hang_after: Duration::from_millis(40_000), parallel: (dflt.parallel / 2).max(1), ..dflt };
     let budget = Budget::secs(if tier == "thorough" { 2400 } else { 50 });
     // is there an io_uring to talk to at all? (otherwise every case would die in the harness' setup)
     let probe = crate::runner::run_one(&cfg, |em| {
